@@ -154,6 +154,7 @@ class Ctx:
                     "tier": self.tier,
                     "seed": self.seed,
                     "shard": f"{self.shard}/{self.nshards}",
+                    "interpreter_mode": os.environ.get("VERIF_SHARD_MODE", "plain"),
                 }
             )
 
